@@ -147,6 +147,156 @@ def inline_into(fj, by_path, anchors, stats):
     return changed
 
 
+def _rewrite_upvars(obj, env_local, by_ref, upvar_places):
+    """replace every place rooted at the closure environment `env_local`
+    ((*_1).i for Fn/FnMut closures, _1.i for FnOnce) by the captured place"""
+    if isinstance(obj, list):
+        for x in obj:
+            _rewrite_upvars(x, env_local, by_ref, upvar_places)
+        return True
+    if not isinstance(obj, dict):
+        return True
+    if "l" in obj and "p" in obj and isinstance(obj["p"], list) and obj["l"] == env_local:
+        pr = obj["p"]
+        skip = 1 if by_ref else 0
+        if len(pr) > skip and (not by_ref or pr[0] == "deref") and isinstance(pr[skip], dict) and "f" in pr[skip]:
+            up = upvar_places.get(pr[skip]["f"])
+            if up is None:
+                raise ValueError("upvar")
+            obj["l"] = up["l"]
+            obj["p"] = copy.deepcopy(up["p"]) + pr[skip + 1:]
+        else:
+            raise ValueError("env escapes")
+        return True
+    for v in obj.values():
+        _rewrite_upvars(v, env_local, by_ref, upvar_places)
+    return True
+
+
+def desugar_for_each(fj, by_path, stats):
+    """`ITER.for_each(|x| BODY)` becomes the loop it abbreviates:
+    `loop { match ITER.next() { None => break, Some(x) => BODY } }`, with the
+    closure body spliced in and its captured variables substituted.  Purely a
+    re-sugaring: Iterator::for_each is specified as exactly this loop."""
+    body = fj["body"]
+    blocks = body["blocks"]
+    changed = False
+    for bi in range(len(blocks)):
+        b = blocks[bi]
+        t = b["term"]
+        if t["k"] != "call" or b["cleanup"] or t.get("target") is None:
+            continue
+        v = t["func"].get("v") if t["func"].get("k") == "const" else None
+        if not isinstance(v, dict) or v.get("fn") != "std::iter::Iterator::for_each" or len(t["args"]) != 2:
+            continue
+        it_op, cl_op = t["args"]
+        if cl_op.get("k") != "move" or cl_op["pl"]["p"] or it_op.get("k") != "move" or it_op["pl"]["p"]:
+            continue
+        cl_local = cl_op["pl"]["l"]
+        # the unique closure aggregate
+        aggs = []
+        for blk in blocks:
+            for st in blk["stmts"]:
+                if st["k"] == "assign" and st["pl"]["l"] == cl_local and not st["pl"]["p"]:
+                    aggs.append(st)
+        if len(aggs) != 1 or aggs[0]["rv"].get("rv") != "aggregate" or aggs[0]["rv"].get("agg") != "closure":
+            continue
+        g = by_path.get(aggs[0]["rv"].get("fn"))
+        if g is None or g["kind"] != "Closure" or g["body"]["arg_count"] != 2:
+            continue
+        ups = {}
+        okc = True
+        for i, o in enumerate(aggs[0]["rv"]["ops"]):
+            if o.get("k") in ("move", "copy"):
+                ups[i] = o["pl"]
+            else:
+                okc = False
+        if not okc:
+            continue
+        gb = g["body"]
+        env_ty = gb["locals"][1]["ty"]
+        by_ref = env_ty.get("k") == "ref"
+        lofs = len(body["locals"])
+        bofs = len(blocks) + 3
+        new_locals = [copy.deepcopy(l) for l in gb["locals"]]
+        new_blocks = []
+        try:
+            for gblk in gb["blocks"]:
+                nb = copy.deepcopy(gblk)
+                for st in nb["stmts"]:
+                    _remap_stmt(st, lofs)
+                nt = nb["term"]
+                if nt["k"] == "return":
+                    nb["term"] = {"k": "goto", "target": len(blocks), "sp": nt.get("sp"), "exp": True}
+                else:
+                    _remap_term(nt, lofs, bofs)
+                _rewrite_upvars(nb, lofs + 1, by_ref, ups)
+                new_blocks.append(nb)
+        except ValueError:
+            continue
+        self_ty = v.get("self_ty") or (v.get("targs") or [None])[0]
+        if self_ty is None:
+            continue
+        sp = t.get("sp")
+        # extra locals: &mut iter, Option<Item>, discriminant
+        body["locals"].extend(new_locals)
+        l_ref = len(body["locals"])
+        body["locals"].append({"ty": {"s": "&mut " + self_ty["s"], "k": "ref", "mut": True, "of": self_ty}})
+        l_opt = l_ref + 1
+        body["locals"].append({"ty": {"s": "std::option::Option<%s>" % gb["locals"][2]["ty"]["s"], "k": "adt", "adt": "std::option::Option", "args": [gb["locals"][2]["ty"]]}})
+        l_d = l_ref + 2
+        body["locals"].append({"ty": {"s": "isize", "k": "int"}})
+        full = "<%s as std::iter::Iterator>::next" % self_ty["s"]
+        nxt = {"fn": "std::iter::Iterator::next", "full": full, "krate": "core", "local": False, "targs": [self_ty],
+               "name": "next", "trait": "std::iter::Iterator", "self_ty": self_ty}
+        head = len(blocks)
+        h = {"cleanup": False,
+             "stmts": [{"k": "assign", "pl": {"l": l_ref, "p": []}, "rv": {"rv": "ref", "mut": True, "pl": copy.deepcopy(it_op["pl"])}, "sp": sp, "exp": True}],
+             "term": {"k": "call", "func": {"k": "const", "ty": "fn", "v": nxt}, "args": [{"k": "move", "pl": {"l": l_ref, "p": []}}],
+                      "dest": {"l": l_opt, "p": []}, "target": head + 1, "sp": sp, "exp": True}}
+        sw = {"cleanup": False,
+              "stmts": [{"k": "assign", "pl": {"l": l_d, "p": []}, "rv": {"rv": "discr", "pl": {"l": l_opt, "p": []}, "adt": "std::option::Option", "variants": [[0, "None"], [1, "Some"]]}, "sp": sp, "exp": True}],
+              "term": {"k": "switch", "discr": {"k": "move", "pl": {"l": l_d, "p": []}}, "targets": [[0, t["target"]]], "otherwise": head + 2, "sp": sp, "exp": True}}
+        item_ty = gb["locals"][2]["ty"]["s"]
+        bd = {"cleanup": False,
+              "stmts": [{"k": "assign", "pl": {"l": lofs + 2, "p": []},
+                         "rv": {"rv": "use", "op": {"k": "move", "pl": {"l": l_opt, "p": [{"down": 1, "name": "Some"}, {"f": 0, "name": "0", "ty": item_ty, "adt": "std::option::Option"}]}}}, "sp": sp, "exp": True}],
+              "term": {"k": "goto", "target": bofs, "sp": sp, "exp": True}}
+        blocks.extend([h, sw, bd])
+        blocks.extend(new_blocks)
+        b["term"] = {"k": "goto", "target": head, "sp": sp, "exp": True}
+        g["absorbed"] = True
+        stats.setdefault(fj["path"], []).append(g["path"] + " (for_each)")
+        changed = True
+    return changed
+
+
+def desugar_parse(facts_json):
+    """`s.parse::<T>()` is, by definition of str::parse, `<T as FromStr>::from_str(s)`"""
+    impls = {}
+    for f in facts_json["fns"]:
+        if f.get("name") == "from_str" and (f.get("impl_trait") or "").endswith("str::FromStr") and f.get("impl_self"):
+            impls[f["impl_self"]["s"]] = f["path"]
+    n = 0
+    for f in facts_json["fns"]:
+        for b in f["body"]["blocks"]:
+            t = b["term"]
+            if t["k"] != "call":
+                continue
+            v = t["func"].get("v") if t["func"].get("k") == "const" else None
+            if not isinstance(v, dict) or v.get("fn") != "core::str::<impl str>::parse" or len(v.get("targs") or []) != 1:
+                continue
+            ty = v["targs"][0]
+            full = "<%s as std::str::FromStr>::from_str" % ty["s"]
+            nv = {"fn": "std::str::FromStr::from_str", "full": full, "krate": "core", "local": False, "targs": [ty],
+                  "name": "from_str", "trait": "std::str::FromStr", "self_ty": ty}
+            if ty["s"] in impls:
+                nv["resolved"] = {"fn": impls[ty["s"]], "full": full, "krate": facts_json.get("crate", "enr"), "local": True}
+            t["func"]["v"] = nv
+            n += 1
+    return n
+
+
 def inline_helpers(facts_json, anchors=None):
     """in-place; returns {caller: [inlined callee paths]}"""
     anchors = anchors if anchors is not None else load_anchors()
@@ -156,6 +306,10 @@ def inline_helpers(facts_json, anchors=None):
     for f in facts_json["fns"]:
         by_path.setdefault(f["path"], f)
     stats = {}
+    desugar_parse(facts_json)
+    for _ in range(MAX_ROUNDS):
+        if not any([desugar_for_each(f, by_path, stats) for f in facts_json["fns"]]):
+            break
     # helpers first, so that nested helpers are already expanded when spliced
     for _ in range(MAX_ROUNDS):
         changed = False
